@@ -1,5 +1,5 @@
 (* Properties_C06.v — C06: saving is deterministic and idempotent. *)
-From ElfioV Require Import Bytes Mem Stream SectionData Strings Elfio Table Loader Layout Writer Layout_proofs.
+From ElfioV Require Import Bytes Mem Stream SectionData Strings Elfio Table Loader Layout Writer Layout_proofs Segment_proofs.
 Local Open Scope N_scope.
 
 (* save() is a function of the object and the stream: the model has no hidden
@@ -32,6 +32,26 @@ Theorem C06_free_sections_idempotent :
     layout_free_sections [] (pre ++ todo') (lenN pre) todo' pos = (pre ++ todo', pos').
 Proof. exact lfs_idempotent. Qed.
 Print Assumptions C06_free_sections_idempotent.
+
+(* A segment of automatically addressed, non-empty allocated data members: the
+   first pass records addresses and offsets; a second pass from the same file
+   position, with fresh "generated" flags, re-derives exactly the same segment
+   and sections (the gaps now come from the recorded addresses). *)
+Theorem C06_segment_second_pass_is_identity :
+  forall h g secs gen pos bound ms g' secs' gen' pos',
+    let idxs := g_sections g in
+    let align := if 0 <? p_align g then p_align g else 1 in
+    lenN idxs < 2 ^ 16 -> idxs <> [] ->
+    g_offset_set g = false -> p_type g <> PT_PHDR ->
+    NoDup idxs -> Forall2 (fun i s => nth_optN secs i = Some s) idxs ms ->
+    Forall auto_member ms -> Forall (fun s => bound <= 2 ^ xw (s_cls s)) ms -> Forall (fun s => sh_size s <> 0) ms ->
+    (forall i, In i idxs -> nth_optN gen i = Some false) ->
+    bound <= 2 ^ 63 -> bound <= 2 ^ xw (g_cls g) -> p_align g < 2 ^ 63 ->
+    p_vaddr g + pos + align + mbudget ms < bound -> 0 < pos ->
+    layout_one_segment h g secs gen pos = Ok (g', secs', gen', pos', true) ->
+    exists gen'', layout_one_segment h g' secs' gen pos = Ok (g', secs', gen'', pos', true).
+Proof. exact layout_one_segment_again. Qed.
+Print Assumptions C06_segment_second_pass_is_identity.
 
 Definition mk (i ty al sz : N) : section :=
   with_index (with_size (with_addralign (with_type (new_section C64) ty) al) sz) i.
